@@ -365,6 +365,16 @@ fn judge_reject(case: &Case, l: &mut Local) {
             f.extend(f2.iter().map(|t| [t[0] + off, t[1] + off, t[2] + off]));
             (v, f)
         }
+        n if n.starts_with("face-twice") => {
+            // a planar 4x4-vertex disk with one interior face listed twice (the second copy with the same or the
+            // opposite winding): three faces on each of its edges, yet still a single boundary loop
+            let g = Case { kind: "grid".into(), nx: 4, ny: 4, bits: 0, drop: -1, jitter: 0, relabel: 0, pose: 0, name: String::new() };
+            let (v, mut f) = grid(&g).unwrap();
+            let k: usize = n.split('-').nth(2).and_then(|x| x.parse().ok()).unwrap_or(8);
+            let t = f[k];
+            f.push(if n.ends_with("flipped") { [t[0], t[2], t[1]] } else { t });
+            (v, f)
+        }
         _ => (
             // three faces on one edge
             vec![Point3::new(0.0, 0.0, 0.0), Point3::new(1.0, 0.0, 0.0), Point3::new(0.0, 1.0, 0.0), Point3::new(0.0, -1.0, 0.0), Point3::new(0.0, 0.0, 1.0)],
@@ -380,8 +390,35 @@ fn judge_reject(case: &Case, l: &mut Local) {
     l.check("a mesh that is not a single-boundary disk is rejected with an error", "", rejected, mk, || format!("{}: {:?}", case.name, r.map(|u| u.len())));
 }
 
+/// A planar disk whose vertex array also holds vertices that no face uses (a face subset that keeps the whole
+/// vertex array, a spare vertex appended): still a disk, flattened like the disk without them
+fn judge_spare(case: &Case, l: &mut Local) {
+    let g = Case { kind: "grid".into(), ..case.clone() };
+    let (mut v, mut f) = match grid(&g) {
+        Some(x) => x,
+        None => return,
+    };
+    l.distinct(hash_of(&serde_json::to_string(case).unwrap()));
+    l.bucket("disk with vertices that no face uses");
+    if case.name == "appended" {
+        v.push(Point3::new(7.5, -3.0, 2.0));
+        v.insert(0, Point3::new(-4.0, 1.0, 0.5));
+        for t in f.iter_mut() {
+            *t = [t[0] + 1, t[1] + 1, t[2] + 1];
+        }
+    } else {
+        // keep the whole vertex array, drop the faces of the last row of cells
+        let keep = f.len() - 2 * (case.nx - 1);
+        f.truncate(keep);
+    }
+    let pose = gen::iso3_poses()[case.pose % 5];
+    let vp: Vec<Point3> = v.iter().map(|p| pose * p).collect();
+    judge_disk(&vp, &f, true, case, l);
+}
+
 pub fn judge(case: &Case, l: &mut Local) {
     match case.kind.as_str() {
+        "spare" => judge_spare(case, l),
         "grid" | "fan" => judge_grid(case, l),
         "curved" => judge_curved(case, l),
         "reject" => judge_reject(case, l),
@@ -434,7 +471,16 @@ pub fn cases(tier: Tier) -> Vec<Case> {
             out.push(Case { bits, pose, ..base("curved") });
         }
     }
-    for name in ["tetrahedron", "box", "octahedron", "annulus", "two-disks", "three-faces-on-one-edge"] {
+    for (nx, ny) in [(3usize, 3usize), (4, 3), (4, 4)] {
+        for bits in [0u32, 5, 170] {
+            for pose in 0..2 {
+                for name in ["appended", "subset"] {
+                    out.push(Case { nx, ny, bits, pose, name: name.into(), ..base("spare") });
+                }
+            }
+        }
+    }
+    for name in ["tetrahedron", "box", "octahedron", "annulus", "two-disks", "three-faces-on-one-edge", "face-twice-8", "face-twice-9", "face-twice-8-flipped", "face-twice-9-flipped", "face-twice-3", "face-twice-3-flipped"] {
         out.push(Case { name: name.into(), ..base("reject") });
     }
     out
@@ -442,7 +488,7 @@ pub fn cases(tier: Tier) -> Vec<Case> {
 
 pub fn run(tier: Tier) -> i32 {
     let mut cx = Ctx::new("C20", tier, "exploration");
-    cx.rule = "planar disks: m x n vertex grids (2x2 .. 4x3, thorough 4x4) with every diagonal assignment (2^cells), every single corner cell removed (non-convex outline), interior vertices displaced on a quarter-step lattice (3 patterns), fans without interior vertex (1..5 triangles); every vertex relabelling for <= 6 vertices, 5 fixed relabellings beyond; 5 poses; curved height-field disks for the invariance clause; rejection inputs (tetrahedron, box, octahedron, annulus, two disjoint disks, three faces on one edge); UV round trips at 4 barycentric points of every face. distinct = distinct cases".into();
+    cx.rule = "planar disks: m x n vertex grids (2x2 .. 4x3, thorough 4x4) with every diagonal assignment (2^cells), every single corner cell removed (non-convex outline), interior vertices displaced on a quarter-step lattice (3 patterns), fans without interior vertex (1..5 triangles); every vertex relabelling for <= 6 vertices, 5 fixed relabellings beyond; 5 poses; curved height-field disks for the invariance clause; rejection inputs (tetrahedron, box, octahedron, annulus, two disjoint disks, three faces on one edge, an interior face listed twice with either winding); disks whose vertex array holds unused vertices; UV round trips at 4 barycentric points of every face. distinct = distinct cases".into();
     cx.bounds = json!({"largest_grid": tier.pick("4x3", "4x4"), "poses": 5, "relabellings_small": "all n!", "relabellings_large": 5});
     cx.require(&["regular grid disk", "non-convex outline", "displaced interior vertices", "disk without interior vertex", "posed in 3D", "relabelled vertices", "curved disk", "non-disk input", "UV round trip", "UV round trip through a mirrored map", "sheared grid (obtuse triangles)"]);
     cx.assume("edge lengths compared at 1e-6 relative (the solver adds a 1e-8 regulariser)");
